@@ -155,6 +155,7 @@ def build_mesh(prog: dict, geo: Geometry):
     mesh = cb.Mesh()
     ops = []
     label_lists: Dict[tuple, list] = {}
+    corner_lists: Dict[tuple, list] = {}
     for op in prog["ops"]:
         pts0 = [geo.pos(p) for p in op["pts0"]]
         # sub-tolerance jitter (0.3 * merge tolerance): must not change connectivity
@@ -227,20 +228,30 @@ def build_mesh(prog: dict, geo: Geometry):
         for s, name in zip(SIDES, op["patch"]):
             if name:
                 loft.set_patch(s, name)
-        for si, (s, label) in enumerate(zip(SIDES, op["sproj"])):
-            if label:
-                flags = op["sproj_flags"][si]
-                loft.project_side(s, label, edges=flags[0], points=flags[1])
-        for c, labels in enumerate(op["pproj_calls"]):
-            if labels:
-                loft.project_corner(c, labels if len(labels) > 1 else labels[0])
+        def side_projections():
+            for si, (s, label) in enumerate(zip(SIDES, op["sproj"])):
+                if label:
+                    flags = op["sproj_flags"][si]
+                    loft.project_side(s, label, edges=flags[0], points=flags[1])
+
+        def corner_projections():
+            # labels are handed over as the caller's own list, one object for every corner given these labels in the whole
+            # program (a single label as a string or as a one-element list): what one corner is projected to later must not
+            # show up at another corner, nor in the caller's list
+            for c, labels in enumerate(op["pproj_calls"]):
+                if labels:
+                    as_list = len(labels) > 1 or prog.get("corner_lists")
+                    loft.project_corner(c, corner_lists.setdefault(tuple(labels), list(labels)) if as_list else labels[0])
+        # (the projections of a vertex are a set: the order of the calls is immaterial)
+        for step in ((corner_projections, side_projections) if prog.get("corners_first") else (side_projections, corner_projections)):
+            step()
         op["get_face"] = [[posid(p.position) for p in loft.get_face(s).points] for s in SIDES]
         op.pop("_shared", None)
         ops.append(loft)
         mesh.add(loft)
-    for key, lst in label_lists.items():
+    for key, lst in list(label_lists.items()) + list(corner_lists.items()):
         if tuple(lst) != key:
-            raise RuntimeError(f"a list of labels handed to project_edge was modified: {list(key)} -> {lst}")
+            raise RuntimeError(f"a list of labels handed to project_edge / project_corner was modified: {list(key)} -> {lst}")
     for op, loft in zip(prog["ops"], ops):
         if op["deleted"]:
             mesh.delete(loft)
